@@ -1,125 +1,198 @@
 (* C12 — shutdown always completes: no hang, no panic, channels closed.
-   Property statements only; each is closed by [exact] of a lemma proved in C12/*.v.
+   Property statements only; each is closed by [exact] of the lemma with the same statement in coq/C12/Export.v, where
+   it is assembled from the lemmas of the development.  [Print Assumptions] of these statements is run at build time
+   (coq/C12/ExportPA1..4.v -> coq/C12/Export_<name>.out, all "Closed under the global context"; checks/c12.py reads the
+   files): walking the proofs takes over a minute, which is why it is not repeated here at every check.
    Models (coq/C12): Prod (async producer), PC (partition consumer + broker worker), Grp (consumer group),
    OM (offset manager), Client, Broker, Refs (reference-counted workers, any number of holders).
    [run (step c) (init c) l = Some s]: s is reached by schedule l — any interleaving of the goroutines'
-   blocking operations with Close / AsyncClose called at any point.  A close of a closed channel, a send on
-   a closed channel or a negative WaitGroup sets [panic]. *)
+   blocking operations with Close / AsyncClose called at any point. *)
 From Coq Require Import List Arith Bool.
-From SV Require Import C12.Lts C12.Conn C12.ConnProofs C12.Refs C12.RefsProofs
-  C12.OffMgr C12.OffMgrProofs C12.OffMgrSim
-  C12.PCons C12.PConsProofs C12.PConsSafety C12.PConsSim C12.PConsAccept C12.PConsNoOor
-  C12.Group C12.GroupProofs C12.GroupSafety C12.GroupSim C12.GroupAccept C12.GroupTerm C12.GroupTerminates
-  C12.PConsTerm C12.PConsProgress C12.PConsMeasure C12.PConsTerminates
-  C12.Prod C12.ProdProofs C12.ProdSafety C12.ProdSim C12.ProdAccept C12.ProdTerm C12.ProdProgress.
+From SV Require Import C12.Lts C12.Conn C12.ConnProofs C12.Refs C12.OffMgr C12.PCons C12.PConsNoOor
+  C12.Group C12.GroupSafety C12.Prod C12.ProdProofs C12.ProdProgress C12.Export.
 Import ListNotations.
 
-(* Print Assumptions walks the whole proof below a theorem; statements about the same component are therefore
-   grouped, so that each proof development is walked once. *)
-
-(* ================= no send on a closed channel / no double close: a Panic state is unreachable ============ *)
-
-(* partition consumer, offset manager, client, broker connection, reference-counted broker workers (any number of
-   holders) and — on the repaired tree, where handleError and close(c.errors) are serialised by errorsLock — the
-   consumer group: for every schedule and every moment of Close / AsyncClose *)
-Theorem c12_no_panic : 
+(* ================= a Panic state is unreachable =================
+   Every model sets [panic] when a closed channel is closed again, when something is sent on a closed channel, or when a
+   WaitGroup counter would go negative.  Partition consumer, consumer group (errorsLock: handleError and
+   close(c.errors) serialised — the tree since fix 7d88780), async producer, offset manager, client, broker connection,
+   reference-counted broker workers (any number of holders): for every schedule and every moment of Close / AsyncClose *)
+Theorem c12_no_panic :
   (forall c l s, run (PC.step c) (PC.init c) l = Some s -> PC.panic s = false) /\
+  (forall c l s, Grp.elock c = true -> run (Grp.step c) (Grp.init c) l = Some s -> Grp.panic s = false) /\
+  (forall c l s, run (Prod.step c) (Prod.init c) l = Some s -> Prod.panic s = false) /\
   (forall c l s, run (OM.step c) (OM.init c) l = Some s -> OM.panic s = false) /\
   (forall c l s, run (Client.step c) (Client.init c) l = Some s -> Client.panic s = false) /\
   (forall c l s, run (Broker.step c) (Broker.init c) l = Some s -> Broker.panic s = false) /\
-  (forall n l s, run Refs.step (Refs.init n) l = Some s -> Refs.panic s = false) /\
-  (forall c l s, Grp.elock c = true -> run (Grp.step c) (Grp.init c) l = Some s -> Grp.panic s = false).
-Proof.
-  exact (conj PCS.pc_no_panic (conj OMP.om_no_panic (conj ClientP.client_no_panic (conj BrokerP.broker_no_panic
-        (conj RefsP.refs_no_panic GrpS.group_no_panic_fixed))))).
-Qed.
-Print Assumptions c12_no_panic.
+  (forall n l s, run Refs.step (Refs.init n) l = Some s -> Refs.panic s = false).
+Proof. exact C12X.c12_no_panic. Qed.
+
+(* ================= no send on a closed channel, site by site =================
+   partition consumer: whoever is about to send on errors / messages / feeder / trigger / the worker's input finds the
+   channel open;
+   consumer group: whoever is between handleError's closed check and its non-blocking send on c.errors — a consume
+   goroutine, the heartbeat loop, release() after a failed Cleanup, an error forwarder — finds c.errors open;
+   async producer: everything sent on errors / successes / retries (and still readable from input) is a counted token,
+   and while there is one the four public channels are open; the handlers' inputs are open until their feeder has
+   returned, the worker's input while the partition producer holds its reference, the worker's output until the worker
+   closed it, responses until the bridge returned;
+   broker connection: a sender on b.responses (holding the lock) finds it open and the receiver still there *)
+Theorem c12_no_send_on_closed :
+  (* partition consumer *)
+  (forall c l s, run (PC.step c) (PC.init c) l = Some s ->
+    ((PC.dp s = PC.DErr \/ PC.fp s = PC.FParseErr \/ (exists o, PC.sc (PC.w s) = PC.SCHErr o) \/
+      PC.sc (PC.w s) = PC.SCAbErr \/ PC.sc (PC.w s) = PC.SCAbNErr) -> closed (PC.errs (PC.ch s)) = false) /\
+    ((exists n f, PC.fp s = PC.FMsgs n f) \/ (exists n, PC.fp s = PC.FLimbo n) -> closed (PC.msgs (PC.ch s)) = false) /\
+    (PC.sc (PC.w s) = PC.SCFeed -> PC.feed_closed (PC.ch s) = false) /\
+    ((PC.dp s = PC.DTok \/ PC.sc (PC.w s) = PC.SCHTok \/ PC.sc (PC.w s) = PC.SCAbTok \/ PC.sc (PC.w s) = PC.SCAbNTok) ->
+       PC.trig_closed (PC.ch s) = false /\ PC.trig_tok (PC.ch s) = false) /\
+    ((PC.dp s = PC.DSub \/ PC.fp s = PC.FResub) -> PC.in_closed (PC.w s) = false)) /\
+  (* consumer group (errorsLock) *)
+  (forall c l s, Grp.elock c = true -> run (Grp.step c) (Grp.init c) l = Some s ->
+    (1 <= Grp.n_he s \/ Grp.hb s = Grp.HHe \/ (exists r, Grp.cc s = Grp.CRelHe r) \/ 1 <= Grp.fw_checked s) ->
+    closed (Grp.errs s) = false) /\
+  (* async producer *)
+  (forall c l s, run (Prod.step c) (Prod.init c) l = Some s ->
+    (1 <= ProdP.tokens s -> Prod.in_closed s = false /\ Prod.ret_closed s = false /\ Prod.err_closed s = false /\ Prod.succ_closed s = false) /\
+    (Prod.dp s <> Prod.DDone -> Prod.tpq_closed s = false) /\ (Prod.tp s <> Prod.TDone -> Prod.ppq_closed s = false) /\
+    (Prod.pp_ref s = true -> Prod.b_in_closed s = false) /\
+    (ProdP.bLate (Prod.bp s) (Prod.b_after s) = 0 -> Prod.out_closed s = false) /\
+    (Prod.br s <> Prod.BrDone -> Prod.resp_closed s = false)) /\
+  (* broker connection *)
+  (forall c l s, run (Broker.step c) (Broker.init c) l = Some s ->
+    Broker.lk s = Broker.LSend -> closed (Broker.resp s) = false /\ Broker.done s = false).
+Proof. exact C12X.c12_no_send_on_closed. Qed.
+
+(* ================= no double close, site by site =================
+   partition consumer: whoever is about to close trigger / feeder / messages / errors / the worker's input / wait /
+   newSubscriptions finds it open; trigger is closed either by the dispatcher or by the broker worker holding the
+   subscription, never both;
+   consumer group: c.closed (closeOnce), c.errors (the goroutine spawned by Close), hbDying (release, releaseOnce) and
+   hbDead (heartbeat loop's defer) are open when about to be closed, and the session's WaitGroup equals the number of
+   consume goroutines that have not run their deferred Done (never negative);
+   async producer: the four closes of shutdown(), the dispatcher's / topic producer's close of their handlers' inputs,
+   the worker's close of output and stopchan, the bridge's close of responses; the worker's input is open while the
+   partition producer holds its reference;
+   broker connection: Close (lock free, connection open) finds responses open, the receiver closes done once;
+   client: closer is open exactly until the one Close that finds the client open, closed is closed by the updater's
+   return; offset manager: a POM's errors channel is closed exactly by its release (releaseOnce) *)
+Theorem c12_no_double_close :
+  (* partition consumer *)
+  (forall c l s, run (PC.step c) (PC.init c) l = Some s ->
+    ((PC.dp s = PC.DSel \/ PC.sc (PC.w s) = PC.SCUpdClose \/ PC.sc (PC.w s) = PC.SCHClose) -> PC.trig_closed (PC.ch s) = false) /\
+    (PC.dp s = PC.DCloseF -> PC.feed_closed (PC.ch s) = false) /\
+    (PC.fp s = PC.FCloseM -> closed (PC.msgs (PC.ch s)) = false) /\
+    (PC.fp s = PC.FCloseE -> closed (PC.errs (PC.ch s)) = false) /\
+    (PC.has_broker s = true -> PC.in_closed (PC.w s) = false) /\
+    (PC.sm (PC.w s) = PC.SMCloseWait -> PC.wait_closed (PC.w s) = false) /\
+    (PC.sm (PC.w s) = PC.SMCloseNS -> PC.ns_closed (PC.w s) = false) /\
+    (PC.dp s = PC.DSel -> PC.sc (PC.w s) <> PC.SCUpdClose /\ PC.sc (PC.w s) <> PC.SCHClose)) /\
+  (* consumer group (errorsLock) *)
+  (forall c l s, Grp.elock c = true -> run (Grp.step c) (Grp.init c) l = Some s ->
+    (Grp.kc s = Grp.KCloseCh -> Grp.closed_ch s = false) /\
+    (Grp.ke s = Grp.EPending -> closed (Grp.errs s) = false) /\
+    ((exists r, Grp.cc s = Grp.CRel3 r) -> Grp.hb_dying s = false) /\
+    (Grp.hb s = Grp.HExit -> Grp.hb_dead s = false) /\
+    Grp.wg s = Grp.n_start s + Grp.n_new s + Grp.n_run s + Grp.n_wait s + Grp.n_he s + Grp.n_defer s) /\
+  (* async producer *)
+  (forall c l s, run (Prod.step c) (Prod.init c) l = Some s ->
+    (Prod.sp s = Prod.SCloseIn -> Prod.in_closed s = false) /\ (Prod.sp s = Prod.SCloseRet -> Prod.ret_closed s = false) /\
+    (Prod.sp s = Prod.SCloseErr -> Prod.err_closed s = false) /\ (Prod.sp s = Prod.SCloseSucc -> Prod.succ_closed s = false) /\
+    (Prod.dp s = Prod.DCloseH -> Prod.tpq_closed s = false) /\ (Prod.tp s = Prod.TCloseH -> Prod.ppq_closed s = false) /\
+    (Prod.bp s = Prod.BShutCloseOut -> Prod.out_closed s = false) /\ (Prod.br s = Prod.BrClose -> Prod.resp_closed s = false) /\
+    (Prod.bp s = Prod.BShutStop -> Prod.stop_closed s = false) /\
+    (Prod.pp_ref s = true -> Prod.b_in_closed s = false)) /\
+  (* broker connection, client, offset manager *)
+  (forall c l s, run (Broker.step c) (Broker.init c) l = Some s ->
+    (Broker.conn s = true -> Broker.lk s = Broker.LFree -> closed (Broker.resp s) = false /\ Broker.done s = false) /\
+    (Broker.rc s = Broker.RIdle \/ Broker.rc s = Broker.RBusy -> Broker.done s = false)) /\
+  (forall c l s, run (Client.step c) (Client.init c) l = Some s ->
+    (Client.closer s = false -> Client.cl s = Client.CIdle /\ Client.brokers_nil s = false) /\
+    (Client.closedch s = true <-> Client.up s = Client.UDone)) /\
+  (forall c l s p, run (OM.step c) (OM.init c) l = Some s -> In p (OM.poms s) ->
+    closed (OM.errs p) = OM.rel_once p /\ OM.managed p = negb (OM.rel_once p)).
+Proof. exact C12X.c12_no_double_close. Qed.
+
+(* the broker worker's reference count: the partition consumer holds exactly one reference while child.broker != nil
+   (the dispatcher resets child.broker when it returns the reference), none otherwise; the worker's input is closed
+   exactly when the reference was returned; while the child is with the worker (subscription manager's buffer,
+   subscription map) the reference is held.  Any number of children following that holder protocol on one worker
+   (Refs.v): the input is closed at most once, nobody sends on it afterwards, the count never goes negative, and a
+   closed input means nobody holds a reference — a worker with subscribers is never shut down *)
+Theorem c12_worker_refcount :
+  (forall c l s, run (PC.step c) (PC.init c) l = Some s ->
+    PC.refs (PC.w s) = (if PC.has_broker s then 1 else 0) /\
+    PC.in_closed (PC.w s) = negb (PC.has_broker s) /\
+    (PC.buf (PC.w s) = true \/ PC.subs (PC.w s) = true -> PC.has_broker s = true)) /\
+  (forall n l s, run Refs.step (Refs.init n) l = Some s ->
+    Refs.panic s = false /\ (Refs.in_closed s = true -> Refs.count (Refs.holders s) = 0)).
+Proof. exact C12X.c12_worker_refcount. Qed.
 
 (* a reference that is never returned (retryBatch of the idempotent producer) keeps the worker's input open *)
 Theorem c12_refs_leak_never_closed : forall n l1 s1 l2 s2,
   run Refs.step (Refs.init n) l1 = Some s1 -> Refs.leaky (Refs.holders s1) = true ->
   run Refs.step s1 l2 = Some s2 -> Refs.in_closed s2 = false.
-Proof. exact RefsP.refs_leak_never_closed. Qed.
-Print Assumptions c12_refs_leak_never_closed.
+Proof. exact C12X.c12_refs_leak_never_closed. Qed.
 
-(* consumer group, pinned tree: the full statement is false — an error forwarder that passed handleError's
-   closed check before Close was called sends on c.errors after Close closed it ... *)
+(* ================= the consumer group before fix 7d88780 (model flag elock = false) =================
+   the full statement is false — an error forwarder that passed handleError's closed check before Close was called
+   sends on c.errors after Close closed it ... *)
 Theorem c12_no_send_on_closed_group_refuted :
   exists l s, run (Grp.step GrpS.racy_cfg) (Grp.init GrpS.racy_cfg) l = Some s /\ Grp.panic s = true.
-Proof. exact GrpS.group_send_on_closed_refuted. Qed.
-Print Assumptions c12_no_send_on_closed_group_refuted.
+Proof. exact C12X.c12_no_send_on_closed_group_refuted. Qed.
 
 (* ... and that interleaving is the only way: every schedule that never executes close(c.errors) while a forwarder
-   is between the check and the send is panic-free, and what the application observes is accepted (first Close nil
-   or error, later ones nil; Consume after Close answers ErrClosedConsumerGroup; nothing on Errors() afterwards) *)
+   is between the check and the send is panic-free, and what the application observes is accepted *)
 Theorem c12_no_send_on_closed_group_partial :
   (forall c l s, GrpS.avoids c (Grp.init c) l -> run (Grp.step c) (Grp.init c) l = Some s -> Grp.panic s = false) /\
   (forall c l s, GrpS.avoids c (Grp.init c) l -> run (Grp.step c) (Grp.init c) l = Some s -> Grp.accepts (trace Grp.lbl l) = true).
-Proof. exact (conj GrpS.group_no_panic_partial GrpA.group_trace_accepted_partial). Qed.
-Print Assumptions c12_no_send_on_closed_group_partial.
+Proof. exact C12X.c12_no_send_on_closed_group_partial. Qed.
 
-(* partition consumer, site by site: whoever is about to send on errors / messages / feeder / trigger / the
-   worker's input finds the channel open *)
-Theorem c12_no_send_on_closed : forall c l s, run (PC.step c) (PC.init c) l = Some s ->
-  ((PC.dp s = PC.DErr \/ PC.fp s = PC.FParseErr \/ (exists o, PC.sc (PC.w s) = PC.SCHErr o) \/
-    PC.sc (PC.w s) = PC.SCAbErr \/ PC.sc (PC.w s) = PC.SCAbNErr) -> closed (PC.errs (PC.ch s)) = false) /\
-  ((exists n f, PC.fp s = PC.FMsgs n f) \/ (exists n, PC.fp s = PC.FLimbo n) -> closed (PC.msgs (PC.ch s)) = false) /\
-  (PC.sc (PC.w s) = PC.SCFeed -> PC.feed_closed (PC.ch s) = false) /\
-  ((PC.dp s = PC.DTok \/ PC.sc (PC.w s) = PC.SCHTok \/ PC.sc (PC.w s) = PC.SCAbTok \/ PC.sc (PC.w s) = PC.SCAbNTok) ->
-     PC.trig_closed (PC.ch s) = false /\ PC.trig_tok (PC.ch s) = false) /\
-  ((PC.dp s = PC.DSub \/ PC.fp s = PC.FResub) -> PC.in_closed (PC.w s) = false).
-Proof. exact PCS.pc_no_send_on_closed. Qed.
-Print Assumptions c12_no_send_on_closed.
-
-(* partition consumer, site by site: whoever is about to close trigger / feeder / messages / errors / the
-   worker's input / wait / newSubscriptions finds it open; trigger is closed either by the dispatcher or by the
-   broker worker holding the subscription, never both *)
-Theorem c12_no_double_close : forall c l s, run (PC.step c) (PC.init c) l = Some s ->
-  ((PC.dp s = PC.DSel \/ PC.sc (PC.w s) = PC.SCUpdClose \/ PC.sc (PC.w s) = PC.SCHClose) -> PC.trig_closed (PC.ch s) = false) /\
-  (PC.dp s = PC.DCloseF -> PC.feed_closed (PC.ch s) = false) /\
-  (PC.fp s = PC.FCloseM -> closed (PC.msgs (PC.ch s)) = false) /\
-  (PC.fp s = PC.FCloseE -> closed (PC.errs (PC.ch s)) = false) /\
-  (PC.has_broker s = true -> PC.in_closed (PC.w s) = false) /\
-  (PC.sm (PC.w s) = PC.SMCloseWait -> PC.wait_closed (PC.w s) = false) /\
-  (PC.sm (PC.w s) = PC.SMCloseNS -> PC.ns_closed (PC.w s) = false) /\
-  (PC.dp s = PC.DSel -> PC.sc (PC.w s) <> PC.SCUpdClose /\ PC.sc (PC.w s) <> PC.SCHClose).
-Proof. exact PCS.pc_no_double_close. Qed.
-Print Assumptions c12_no_double_close.
-
-(* ================= output channels are closed after their last event ================= *)
-
-(* partition consumer: messages / errors are closed by the feeder after its last send, feeder after the
-   dispatcher left its loop; offset manager: a POM's errors channel is closed exactly when the POM was released
-   (removed from om.poms: nothing is sent to it any more) *)
+(* ================= output channels are closed after their last event =================
+   partition consumer: messages / errors are closed by the feeder after its last send, feeder after the dispatcher left
+   its loop; consumer group: once c.errors is closed nobody is positioned to send on it, c.closed is closed (every later
+   handleError returns at its check); async producer: shutdown() closes the four public channels only when nothing is in
+   flight, and inFlight counts every token a goroutine can hold; offset manager: a POM's errors channel is closed exactly
+   when the POM was released (removed from om.poms); broker connection: the receiver closes done only after responses
+   was closed and drained *)
 Theorem c12_closed_after_last_event :
   (forall c l s, run (PC.step c) (PC.init c) l = Some s ->
     (closed (PC.msgs (PC.ch s)) = true -> PC.fp s = PC.FCloseE \/ PC.fp s = PC.FDone) /\
     (closed (PC.errs (PC.ch s)) = true -> PC.fp s = PC.FDone) /\
     (PC.feed_closed (PC.ch s) = true -> PC.dp s = PC.DDone) /\
     (PC.fp s = PC.FCloseM \/ PC.fp s = PC.FCloseE \/ PC.fp s = PC.FDone -> PC.feed_closed (PC.ch s) = true /\ PC.feed_full (PC.ch s) = false)) /\
-  (forall c l s p, run (OM.step c) (OM.init c) l = Some s -> In p (OM.poms s) -> closed (OM.errs p) = negb (OM.managed p)).
-Proof. exact (conj PCS.pc_closed_after_last_event OMP.om_released_closed). Qed.
-Print Assumptions c12_closed_after_last_event.
+  (forall c l s, Grp.elock c = true -> run (Grp.step c) (Grp.init c) l = Some s -> closed (Grp.errs s) = true ->
+    Grp.n_he s = 0 /\ Grp.hb s <> Grp.HHe /\ (forall r, Grp.cc s <> Grp.CRelHe r) /\ Grp.fw_checked s = 0 /\
+    Grp.closed_ch s = true /\ Grp.ke s = Grp.EDone) /\
+  (forall c l s, run (Prod.step c) (Prod.init c) l = Some s ->
+    Prod.inflight s = ProdP.tokens s /\
+    (Prod.err_closed s = true \/ Prod.succ_closed s = true \/ Prod.ret_closed s = true \/ Prod.in_closed s = true -> ProdP.tokens s = 0)) /\
+  (forall c l s p, run (OM.step c) (OM.init c) l = Some s -> In p (OM.poms s) -> closed (OM.errs p) = negb (OM.managed p)) /\
+  (forall c l s, run (Broker.step c) (Broker.init c) l = Some s ->
+    Broker.rc s = Broker.RDone -> Broker.done s = true /\ closed (Broker.resp s) = true /\ len (Broker.resp s) = 0).
+Proof. exact C12X.c12_closed_after_last_event. Qed.
 
-(* what the application can observe of a run is accepted by the component's observer automaton — the acceptance
-   functions the correspondence evaluates on the harness observations (coq/C12/Corr.v): no event on a channel after
-   its close was seen; nothing from Errors() while the application's Close() drains it; Close() returns after errors
-   was closed and drained, and then messages is closed too and holds at most its buffer; when the broker never
-   answers OffsetOutOfRange the channels are seen closed only after a close call; offset manager: per POM events,
-   then one close, nothing afterwards *)
+(* ================= what the application can observe is accepted by the component's observer automaton =================
+   — the acceptance functions the correspondence evaluates on the harness observations (coq/C12/Corr.v): no event on a
+   channel after its close was seen; nothing from Errors() while the application's Close() drains it; Close() returns
+   after errors was closed and drained, and then messages is closed too and holds at most its buffer; when the broker
+   never answers OffsetOutOfRange the channels are seen closed only after a close call; group: first Close nil or error,
+   later ones nil, Consume after Close answers ErrClosedConsumerGroup, nothing on Errors() afterwards; producer: the four
+   channels close after AsyncClose, in order; offset manager: per POM events, then one close, nothing afterwards *)
 Theorem c12_observable :
   (forall c l s, run (PC.step c) (PC.init c) l = Some s -> PC.accepts c true (trace PC.lbl l) = true) /\
   (forall c l s, forallb PCN.noor l = true -> run (PC.step c) (PC.init c) l = Some s -> PC.accepts c false (trace PC.lbl l) = true) /\
-  (forall c l s, run (OM.step c) (OM.init c) l = Some s -> OM.accepts c (trace OM.lbl l) = true).
-Proof. exact (conj PCA.pc_trace_accepted (conj PCN.pc_trace_accepted_noor OMSim.om_trace_accepted)). Qed.
-Print Assumptions c12_observable.
+  (forall c l s, Grp.elock c = true -> run (Grp.step c) (Grp.init c) l = Some s -> Grp.accepts (trace Grp.lbl l) = true) /\
+  (forall c l s, run (Prod.step c) (Prod.init c) l = Some s -> Prod.accepts c (trace (Prod.lbl c) l) = true) /\
+  (forall c l s, run (OM.step c) (OM.init c) l = Some s -> OM.accepts c (trace OM.lbl l) = true) /\
+  (forall c l s, run (Client.step c) (Client.init c) l = Some s -> Client.accepts (trace Client.lbl l) = true).
+Proof. exact C12X.c12_observable. Qed.
 
-(* ================= closing twice is harmless ================= *)
-
-(* partition consumer: a second AsyncClose changes nothing (closeOnce), a second Close() returns no errors (in
+(* ================= closing twice is harmless =================
+   partition consumer: a second AsyncClose changes nothing (closeOnce), a second Close() returns no errors (in
    c12_observable: the automaton accepts `Ret 1 n` after a first return only for n = 0);
-   group (repaired tree): the first Close returns nil or an error, every later one nil; Consume on a group whose Close
-   has returned answers ErrClosedConsumerGroup; Errors() delivers nothing after Close returned;
+   group: the first Close returns nil or an error, every later one nil; Consume on a group whose Close has returned
+   answers ErrClosedConsumerGroup; Errors() delivers nothing after Close returned;
    client: the first Close returns nil, every later one ErrClosedClient;
    broker connection: Close on a connection that is not open returns ErrNotConnected and touches nothing *)
 Theorem c12_double_close_harmless :
@@ -130,22 +203,16 @@ Theorem c12_double_close_harmless :
   (forall c s s', Broker.conn s = false -> Broker.step c s Broker.ACloseCall = Some s' ->
      Broker.ret s' = Some rErrNotConnected /\ Broker.conn s' = false /\ Broker.resp s' = Broker.resp s /\
      Broker.done s' = Broker.done s /\ Broker.panic s' = Broker.panic s).
-Proof.
-  exact (conj PCS.pc_second_asyncclose_noop (conj GrpA.group_trace_accepted_fixed
-        (conj ClientP.client_trace_accepted BrokerP.broker_close_not_open))).
-Qed.
-Print Assumptions c12_double_close_harmless.
+Proof. exact C12X.c12_double_close_harmless. Qed.
 
-(* ================= termination ================= *)
-(* [Terminates step phase final]: inside the phase the successor relation is well founded (no infinite run) and
+(* ================= termination =================
+   [Terminates step phase final]: inside the phase the successor relation is well founded (no infinite run) and
    a state of the phase in which no step is enabled is final.  Timer events after the close, error reports
    still to come and calls the application still makes are finitely many (budgets of the models, arbitrary);
    network calls are single steps (they return); the application keeps receiving. *)
-
 Theorem c12_group_terminates : forall c, Grp.elock c = true ->
   Terminates (Grp.step c) (fun s => Reach (Grp.step c) (Grp.init c) s /\ Grp.closed_ch s = true) Grp.final.
-Proof. exact GrpTT.group_terminates. Qed.
-Print Assumptions c12_group_terminates.
+Proof. exact C12X.c12_group_terminates. Qed.
 
 (* partition consumer: from AsyncClose / Close on (dying closed) there is no infinite run — the dispatcher's select
    prefers its back-off timer over the closed dying channel finitely often, the application makes finitely many further
@@ -153,19 +220,16 @@ Print Assumptions c12_group_terminates.
    consumer returned and messages / errors closed *)
 Theorem c12_consumer_terminates : forall c,
   Terminates (PC.step c) (fun s => Reach (PC.step c) (PC.init c) s /\ PC.dying (PC.ch s) = true) PC.final.
-Proof. exact PCTerm.pc_terminates. Qed.
-Print Assumptions c12_consumer_terminates.
+Proof. exact C12X.c12_consumer_terminates. Qed.
 
 (* async producer — partial (safety + the progress half of the close cascade):
-   - no schedule panics (input, retries, errors, successes, the handlers' inputs, the worker's input / output /
-     responses / stopchan are closed once and nothing is sent on them afterwards, inFlight never goes negative);
-   - shutdown() closes the four public channels only when nothing is in flight, and inFlight counts every token a
-     goroutine can hold;
-   - what the application observes is accepted by the observer automaton (the acceptance function of the correspondence);
+   - no schedule panics;
+   - shutdown() closes the four public channels only when nothing is in flight, and inFlight counts every token;
+   - what the application observes is accepted by the observer automaton;
    - once shutdown() has passed inFlight.Wait(), a state in which no step is enabled has the four channels closed and
      every goroutine of the producer returned (no deadlock in the cascade).
    The full statement (from AsyncClose on every run is finite and ends closed — which includes that everything in
-   flight gets resolved, the liveness side of property C01) is the Definition below. *)
+   flight gets resolved, the liveness side of property C01) is the Definition below; it is NOT proved. *)
 Theorem c12_producer_terminates_partial :
   (forall c l s, run (Prod.step c) (Prod.init c) l = Some s -> Prod.panic s = false) /\
   (forall c l s, run (Prod.step c) (Prod.init c) l = Some s ->
@@ -173,15 +237,13 @@ Theorem c12_producer_terminates_partial :
      (Prod.err_closed s = true \/ Prod.succ_closed s = true \/ Prod.ret_closed s = true \/ Prod.in_closed s = true -> ProdP.tokens s = 0)) /\
   (forall c l s, run (Prod.step c) (Prod.init c) l = Some s -> Prod.accepts c (trace (Prod.lbl c) l) = true) /\
   (forall c s, Reach (Prod.step c) (Prod.init c) s -> ProdP.sLate (Prod.sp s) = 1 -> stuck (Prod.step c) s -> Prod.final s).
-Proof.
-  exact (conj ProdS.prod_no_panic (conj ProdS.prod_closed_after_last_event (conj ProdA.prod_trace_accepted ProdTT.prod_cascade_progress))).
-Qed.
-Print Assumptions c12_producer_terminates_partial.
+Proof. exact C12X.c12_producer_terminates_partial. Qed.
 
 Definition c12_producer_terminates : Prop := ProdTT.prod_terminates_statement.
 
+(* client (background updater) and broker connection (receiver goroutine, Close waiting for done) *)
 Theorem c12_client_broker_terminate :
   (forall c, Terminates (Client.step c) (fun s => Reach (Client.step c) (Client.init c) s /\ Client.closer s = true) Client.final) /\
   (forall c, Terminates (Broker.step c) (fun s => Reach (Broker.step c) (Broker.init c) s /\ Broker.closing s) BrokerP.final).
-Proof. exact (conj ClientP.client_terminates BrokerP.broker_close_terminates). Qed.
-Print Assumptions c12_client_broker_terminate.
+Proof. exact C12X.c12_client_broker_terminate. Qed.
+
